@@ -460,6 +460,184 @@ def _cond_result(fn):
     raise Unsupported("%s does not select between two values:\n%s" % (fn.name, ast.unparse(fn)))
 
 
+# ----------------------------------------------------------------------------- derivations (bind / patch / opt / root logger)
+def _const_int(node):
+    if isinstance(node, ast.Constant) and type(node.value) is int:
+        return node.value
+    if isinstance(node, ast.UnaryOp) and isinstance(node.op, ast.USub) and isinstance(node.operand, ast.Constant) \
+            and type(node.operand.value) is int:
+        return -node.operand.value
+    return None
+
+
+def _ctor_args(call, init_params, what):
+    """the argument expression of every `Logger.__init__` parameter (after self) of a `Logger(...)` call, positional,
+    starred and keyword arguments alike; a starred argument is returned as ("star", node)"""
+    params = init_params      # [core, exception, depth, ...]
+    out = []
+    for a in call.args:
+        out.append(("star", a.value) if isinstance(a, ast.Starred) else ("one", a))
+    kws = {}
+    for k in call.keywords:
+        if k.arg is None or k.arg not in params or k.arg in kws:
+            raise Unsupported("%s: keyword of Logger(...)" % what)
+        kws[k.arg] = k.value
+    return out, kws
+
+
+def _derivation_args(fn, n, init_params, what, ret=None, depth_param=False):
+    """`Src` of every constructor argument (after core) of the `Logger(...)` call a deriving method returns, obtained by
+    symbolic execution of the method's own top-level statements: unpackings / slices / subscripts of `<self>._options`
+    bind locals to old slots; anything else is a new value.  Local names are irrelevant (renaming-insensitive)."""
+    if fn.decorator_list or not fn.args.args:
+        raise Unsupported("%s: decorated or without self" % what)
+    self_name = fn.args.args[0].arg
+    opt_src = self_name + "._options"
+    env = {}            # local -> ("slot", i) | ("slots", [i...])
+    top = _body(fn)
+
+    def slots_of(node):
+        """old slots denoted by an expression over <self>._options, or None"""
+        if _src(node) == opt_src:
+            return ("slots", list(range(n)))
+        if isinstance(node, ast.Subscript) and _src(node.value) == opt_src:
+            sl = node.slice
+            if isinstance(sl, ast.Slice):
+                if sl.step is not None:
+                    return None
+                lo = 0 if sl.lower is None else _const_int(sl.lower)
+                hi = n if sl.upper is None else _const_int(sl.upper)
+                if lo is None or hi is None:
+                    return None
+                return ("slots", list(range(n))[lo:hi])
+            k = _const_int(sl)
+            if k is not None and -n <= k < n:
+                return ("slot", k % n)
+        return None
+
+    if ret is None:
+        rets = [s_ for s_ in top if isinstance(s_, ast.Return)]
+        if len(rets) != 1 or rets[0] is not top[-1] or sum(1 for x in ast.walk(fn) if isinstance(x, ast.Return)) != 1:
+            raise Unsupported("%s: exactly one final return expected" % what)
+        ret = rets[0]
+    for st in top:
+        if st is ret:
+            break
+        stored = {x.id for x in ast.walk(st) if isinstance(x, ast.Name) and isinstance(x.ctx, (ast.Store, ast.Del))}
+        if isinstance(st, ast.Assign) and len(st.targets) == 1:
+            val = slots_of(st.value)
+            t = st.targets[0]
+            if val is not None and isinstance(t, ast.Name):
+                env[t.id] = val
+                continue
+            if val is not None and val[0] == "slots" and isinstance(t, (ast.Tuple, ast.List)):
+                src = val[1]
+                elts = t.elts
+                stars = [i for i, e in enumerate(elts) if isinstance(e, ast.Starred)]
+                if len(stars) > 1 or (not stars and len(elts) != len(src)) or (stars and len(elts) - 1 > len(src)):
+                    raise Unsupported("%s: unpacking arity %s" % (what, _src(st)))
+                k = stars[0] if stars else len(elts)
+                tail = len(elts) - k - 1 if stars else 0
+                for i, e in enumerate(elts[:k]):
+                    if not isinstance(e, ast.Name):
+                        raise Unsupported("%s: unpacking target %s" % (what, _src(e)))
+                    env[e.id] = ("slot", src[i])
+                if stars:
+                    e = elts[k].value
+                    if not isinstance(e, ast.Name):
+                        raise Unsupported("%s: starred target" % what)
+                    env[e.id] = ("slots", src[k:len(src) - tail])
+                    for j, e in enumerate(elts[k + 1:]):
+                        if not isinstance(e, ast.Name):
+                            raise Unsupported("%s: unpacking target %s" % (what, _src(e)))
+                        env[e.id] = ("slot", src[len(src) - tail + j])
+                continue
+        # any other statement: it must not rebind a name bound to old slots (nor `depth`), and must not return
+        mentioned = {x.id for x in ast.walk(st) if isinstance(x, ast.Name)}
+        if stored & (set(env) | ({"depth"} if depth_param else set())) or mentioned & set(env):
+            raise Unsupported("%s: %s touches a tracked local" % (what, _src(st).splitlines()[0]))
+        if any(isinstance(x, ast.Attribute) and x.attr == "_options" and isinstance(x.ctx, (ast.Store, ast.Del))
+               for x in ast.walk(st)):
+            raise Unsupported("%s: assigns _options" % what)
+        if any(isinstance(x, ast.Return) for x in ast.walk(st)) and not depth_param:
+            raise Unsupported("%s: early return" % what)
+    call = ret.value
+    if not (isinstance(call, ast.Call) and _src(call.func) == "Logger"):
+        raise Unsupported("%s: does not return Logger(...)" % what)
+    pos, kws = _ctor_args(call, init_params, what)
+    flat = []
+    for kind, node in pos:
+        if kind == "star":
+            v = env.get(node.id) if isinstance(node, ast.Name) else slots_of(node)
+            if v is None or v[0] != "slots":
+                raise Unsupported("%s: starred argument %s" % (what, _src(node)))
+            flat.extend(("old", i) for i in v[1])
+        else:
+            flat.append(node)
+    params = init_params      # [core, exception, depth, ...]
+    if len(flat) > len(params):
+        raise Unsupported("%s: too many constructor arguments" % what)
+    by_param = dict(zip(params, flat))
+    for k, v in kws.items():
+        if k in by_param:
+            raise Unsupported("%s: parameter %s given twice" % (what, k))
+        by_param[k] = v
+    if sorted(by_param) != sorted(params):
+        raise Unsupported("%s: constructor arguments %r" % (what, sorted(by_param)))
+    core = by_param[params[0]]
+    if isinstance(core, tuple) or _src(core) != self_name + "._core":
+        raise Unsupported("%s: the derived logger does not share <self>._core" % what)
+    out = []
+    for prm in params[1:]:
+        v = by_param[prm]
+        if isinstance(v, tuple):
+            out.append("(.old %d)" % v[1])
+        elif isinstance(v, ast.Name) and v.id in env and env[v.id][0] == "slot":
+            out.append("(.old %d)" % env[v.id][1])
+        elif slots_of(v) is not None and slots_of(v)[0] == "slot":
+            out.append("(.old %d)" % slots_of(v)[1])
+        elif depth_param and isinstance(v, ast.Name) and v.id == "depth":
+            out.append(".depthParam")
+        else:
+            out.append(".fresh")
+    return out
+
+
+def _root_logger(init_params):
+    """`logger = Logger(core=..., depth=<int>, ...)` in loguru/__init__.py: Src of every constructor argument after core
+    (the depth argument as `.depthParam`) and the depth constant"""
+    itree, _ = parse_module("__init__.py")
+    names = {}
+    for node in itree.body:
+        if isinstance(node, ast.ImportFrom) and node.level == 1 and node.module == "_logger":
+            for a in node.names:
+                if a.name == "Logger":
+                    names[a.asname or a.name] = True
+    cands = [n_ for n_ in itree.body if isinstance(n_, ast.Assign) and len(n_.targets) == 1
+             and _src(n_.targets[0]) == "logger"]
+    if len(cands) != 1 or not isinstance(cands[0].value, ast.Call) or _src(cands[0].value.func) not in names:
+        raise Unsupported("__init__.py: `logger = Logger(...)` not found")
+    call = cands[0].value
+    for node in ast.walk(itree):
+        if isinstance(node, ast.Attribute) and node.attr == "_options" and isinstance(node.ctx, ast.Store):
+            raise Unsupported("__init__.py assigns _options")
+    pos, kws = _ctor_args(call, init_params, "__init__.py")
+    if any(k == "star" for k, _ in pos):
+        raise Unsupported("__init__.py: starred argument")
+    params = init_params      # [core, exception, depth, ...]
+    by_param = dict(zip(params, [x for _, x in pos]))
+    for k, v in kws.items():
+        if k in by_param:
+            raise Unsupported("__init__.py: parameter %s given twice" % k)
+        by_param[k] = v
+    if sorted(by_param) != sorted(params):
+        raise Unsupported("__init__.py: constructor arguments %r" % sorted(by_param))
+    if "depth" not in by_param or _const_int(by_param["depth"]) is None:
+        raise Unsupported("__init__.py: depth of the root logger is not an int constant")
+    return [".depthParam" if prm == "depth" else ".fresh" for prm in params[1:]], _const_int(by_param["depth"])
+
+
+
 def generate():
     errors = []
     body = "import LoguruModel.Frames.Base\nset_option linter.unusedVariables false\nnamespace Frames.Gen\nopen Frames\n\n"
@@ -567,6 +745,48 @@ def generate():
         body += "def optPaths : List (Py.Str × DepthFwd) := [\n" + ",\n".join(
             "  (%s, %s)" % (lean_chars(c), f) for c, f in paths) + "]\n\n"
 
+        # ------------------------------------------------------------------ derivations: Logger.__init__, bind, patch, opt, root
+        n_opts = len(init_tuple)
+        if len(init_params) != n_opts + 2 or init_params[1] != "core" or len(set(init_params)) != len(init_params):
+            raise Unsupported("Logger.__init__ parameters %r" % (init_params,))
+        if not any(_src(s_) == "self._core = core" for s_ in init.body):
+            raise Unsupported("Logger.__init__: self._core = core")
+        if sum(1 for x in ast.walk(init) if isinstance(x, ast.Attribute) and x.attr == "_options"
+               and isinstance(x.ctx, ast.Store)) != 1:
+            raise Unsupported("Logger.__init__ assigns _options more than once")
+        if any(isinstance(x, ast.Name) and isinstance(x.ctx, ast.Store) for x in ast.walk(init)):
+            raise Unsupported("Logger.__init__ rebinds a local")
+        ctor_slots = []
+        for e in init_tuple:
+            if e not in init_params[2:]:
+                raise Unsupported("_options slot %s is not a constructor parameter" % e)
+            ctor_slots.append(init_params[2:].index(e))
+        # no method of Logger other than __init__ stores _options (options are per-logger constants)
+        for f in cls.body:
+            if isinstance(f, (ast.FunctionDef, ast.AsyncFunctionDef)) and f.name != "__init__":
+                for x in ast.walk(f):
+                    if isinstance(x, ast.Attribute) and x.attr == "_options" and isinstance(x.ctx, (ast.Store, ast.Del)):
+                        raise Unsupported("%s assigns _options" % f.name)
+        body += "/-- `Logger.__init__`: the constructor parameter (position after `core`) stored in each `_options` slot -/\n"
+        body += "def ctorSlots : List Nat := [%s]\n" % ", ".join(str(i) for i in ctor_slots)
+
+        def one(name):
+            fs = [f for f in cls.body if isinstance(f, ast.FunctionDef) and f.name == name]
+            if len(fs) != 1:
+                raise Unsupported("method %s missing or duplicated" % name)
+            return fs[0]
+        bind_args = _derivation_args(one("bind"), n_opts, init_params[1:], "bind")
+        patch_args = _derivation_args(one("patch"), n_opts, init_params[1:], "patch")
+        opt_args = _derivation_args(optf, n_opts, init_params[1:], "opt", ret=rets[0], depth_param=True)
+        root_args, root_depth = _root_logger(init_params[1:])
+        for nm, doc_, lst in (("bindArgs", "bind", bind_args), ("patchArgs", "patch", patch_args),
+                              ("optArgs", "opt (its final return)", opt_args),
+                              ("rootArgs", "loguru/__init__.py (the root logger)", root_args)):
+            body += "/-- constructor arguments (after core) of the `Logger(...)` call of %s -/\n" % doc_
+            body += "def %s : List Src := [%s]\n" % (nm, ", ".join(lst))
+        body += "/-- `depth=` of the root logger in loguru/__init__.py -/\n"
+        body += "def rootDepth : Int := (%d : Int)\n\n" % root_depth
+
         # ------------------------------------------------------------------ _log
         logfn = [f for f in cls.body if isinstance(f, ast.FunctionDef) and f.name == "_log"]
         if len(logfn) != 1 or logfn[0].decorator_list:
@@ -608,8 +828,14 @@ def generate():
         # except ValueError -> placeholders
         ph = {}
         handled = "false"
-        if len(ftry.handlers) == 1 and ftry.handlers[0].type is not None and _src(ftry.handlers[0].type) == "ValueError" \
-                and ftry.handlers[0].name is None:
+        overflow = "false"
+        htypes = None
+        if len(ftry.handlers) == 1 and ftry.handlers[0].type is not None and ftry.handlers[0].name is None:
+            ht = ftry.handlers[0].type
+            htypes = sorted(_src(e) for e in ht.elts) if isinstance(ht, ast.Tuple) else [_src(ht)]
+        if htypes in (["ValueError"], ["OverflowError", "ValueError"]):
+            # sys._getframe converts its argument to a C int first: OverflowError (not ValueError) beyond its range
+            overflow = "true" if "OverflowError" in htypes else "false"
             h = ftry.handlers[0]
             ok = True
             for s in h.body:
@@ -627,6 +853,8 @@ def generate():
             raise Unsupported("handlers of the get_frame try: " + ", ".join(_src(h.type) if h.type else "bare" for h in ftry.handlers))
         body += "/-- `except ValueError:` assigns the four placeholders (and nothing else) -/\n"
         body += "def beyondStackHandled : Bool := %s\n" % handled
+        body += "/-- the same handler also covers the OverflowError of `sys._getframe` for an index outside the C `int` range -/\n"
+        body += "def overflowHandled : Bool := %s\n" % (overflow if handled == "true" else "false")
         if handled == "true":
             g = ph["f_globals"]
             if not (isinstance(g, ast.Dict) and not g.keys):
@@ -957,18 +1185,36 @@ def generate():
         crow = []
         node = ifs[0]
         branches = []
+        branch_tests = []
         while True:
             branches.append((_src(node.test), node.body))
+            branch_tests.append(node.test)
             if len(node.orelse) == 1 and isinstance(node.orelse[0], ast.If):
                 node = node.orelse[0]
             else:
                 branches.append(("else", node.orelse))
+                branch_tests.append(None)
                 break
         kind_of = {"iscoroutinefunction(function)": "coroutine", "isgeneratorfunction(function)": "generator",
                    "isasyncgenfunction(function)": "asyncgen", "else": "function"}
-        for test, stmts in branches:
+        def branch_kind(test_node, test_src):
+            """the kind of callable a branch of the dispatch handles: the `is…function(function)` predicate of its test,
+            alone or or-ed with `getattr(function, <marker>, False)` probes (wrappers marking themselves as that kind)"""
+            if test_src in kind_of:
+                return test_src
+            if isinstance(test_node, ast.BoolOp) and isinstance(test_node.op, ast.Or) and _src(test_node.values[0]) in kind_of:
+                for v in test_node.values[1:]:
+                    if not (isinstance(v, ast.Call) and _src(v.func) == "getattr" and len(v.args) == 3 and not v.keywords
+                            and _src(v.args[0]) == "function" and isinstance(v.args[1], ast.Constant)
+                            and isinstance(v.args[1].value, str) and _src(v.args[2]) == "False"):
+                        return None
+                return _src(test_node.values[0])
+            return None
+
+        for (test, stmts), tnode in zip(branches, branch_tests):
+            test = branch_kind(tnode, test) if test != "else" else test
             if test not in kind_of:
-                raise Unsupported("__call__: branch " + test)
+                raise Unsupported("__call__: branch " + str(test))
             fns = [s for s in stmts if isinstance(s, (ast.FunctionDef, ast.AsyncFunctionDef)) and s.name == "catch_wrapper"]
             if len(fns) != 1 or fns[0].decorator_list:
                 raise Unsupported("__call__: catch_wrapper of branch " + test)
@@ -1098,4 +1344,4 @@ def generate():
     except (Unsupported, SyntaxError, KeyError, AttributeError, IndexError, ValueError) as e:
         errors.append("%s: %s" % (type(e).__name__, e))
     body += "\nend Frames.Gen\n"
-    return emit("Frames", body, ["loguru/_logger.py", "loguru/_get_frame.py", "loguru/_recattrs.py"], errors)
+    return emit("Frames", body, ["loguru/_logger.py", "loguru/_get_frame.py", "loguru/_recattrs.py", "loguru/__init__.py"], errors)
